@@ -6,7 +6,7 @@ from . import common as C
 
 PID = 'C18'
 PARALLEL = True
-BATCH = 500
+BATCH = 1200
 BUDGET_S = {'quick': 70, 'thorough': 900}
 RULE = ('JSON: dictionaries with int (incl. negative, zero) and non-integer-like str top-level keys, nested '
         'values {None, bool, int, float, str, list, nested dict, NumPy scalars, ndarrays of every numeric dtype '
